@@ -59,6 +59,8 @@ func guardOrWrapper(p *load.Program, f *ssa.Function, direct func(*ssa.Function)
 }
 
 func checkC04(p *load.Program, r *kit.Report) {
+	importRules(p, r, "C16", "a download whose stream was cut, whose block did not verify or whose processor failed must be reported as failed: Run returns what the handler sent on Complete", 3, nil, "RESULT-FLOW")
+	importRules(p, r, "C16", "a cancelled download issues no confirmation: the downloader's state (cancelled / started / complete) decides who signals and whether the handler goes on, and a cancellation must not be overwritten by a later state change", 1, nil, "CHAN-BUDGET")
 	r.NotDecided = "correctness of the dependency's merkle tree/proof construction (that each emitted proof verifies): merkle_proof.MerkleTree is trusted; block contents as values."
 	r.Rule("GUARD-DOM", "ProcessCoinbaseTx, ConfirmTx and AppendBlockTxIDs are dominated by (a) received count == announced txCount, (b) FinalizeMerkleProofs() root Equal header.MerkleRoot (directly or through a wrapper all of whose successes are behind it), (c) len(proofs) == len(relevant txids); HandleBlock delegates only behind requestedHash.Equal(hash of the delivered header); the node starts the handler only behind blockRequest.Equal(blockHash)", 11)
 	r.Rule("MUST-PASS", "per received tx: AddHash(txid) exactly once and the counter +1 exactly once on every path to the next iteration, txid = *tx.TxHash(); relevant txids and AddMerkleProof only behind isRelevant, before AddHash; every relevant tx gets its proof requested; every iteration of the confirmation loop calls ConfirmTx; the node closes txChannel exactly once on every exit after creating it", 3)
